@@ -208,7 +208,7 @@ fn child_main(args: &Args) -> ! {
     // deterministic families, spread over worker threads with big stacks
     let mut texts: Vec<(String, String)> = vec![];
     let corp = corpus();
-    let n_gen = ctx.tier.pick(60, 600);
+    let n_gen = ctx.tier.pick(200, 600);
     let opts = GenOpts::default();
     let tapes = pt::draw(ctx.seed, "c12-gen", &(prop::collection::vec(any::<u32>(), 0..400), 0u8..3), n_gen);
     let mut bases: Vec<String> = corp.clone();
@@ -269,8 +269,8 @@ fn child_main(args: &Args) -> ! {
     ctx.section("deterministic_families", json!({"texts": total, "base_definitions": bases.len(), "nesting_depths": "1..=200 (+500,1000,2000 arrays)"}));
 
     // random families (proptest, shrinking) on a big-stack thread
-    let n_soup = ctx.tier.pick(40_000, 600_000);
-    let n_mut = ctx.tier.pick(40_000, 600_000);
+    let n_soup = ctx.tier.pick(200_000, 600_000);
+    let n_mut = ctx.tier.pick(200_000, 600_000);
     let bases2 = bases.clone();
     let watch2 = watch.clone();
     let ctx = on_big_stack(move || {
